@@ -286,6 +286,8 @@ def scan_forbidden():
                 continue
             p = os.path.join(dp, f)
             txt = open(p).read()
+            if not FORBIDDEN.search(txt):      # fast path: the word does not occur at all
+                continue
             txt = strip_comments(txt)
             for m in FORBIDDEN.finditer(txt):
                 bad.append("%s: %s" % (os.path.relpath(p, COQ), m.group(0)))
@@ -379,7 +381,9 @@ def coq_eval(name, body, timeout=900):
         f.write(body)
     rc, out = run(["timeout", str(timeout), "coqc", "-R", ".", "PanVerif", "-w", "-all", os.path.join("gen", name + ".v")],
                   cwd=COQ, timeout=timeout + 30)
-    for ext in (".vo", ".vok", ".vos", ".glob"):
+    # the correspondence shards are pure data + one Eval: not kept once they have been evaluated (kept when coqc failed)
+    exts = (".vo", ".vok", ".vos", ".glob") + ((".v",) if rc == 0 and name.startswith("cases_") else ())
+    for ext in exts:
         try:
             os.remove(os.path.join(GEN, name + ext))
         except OSError:
@@ -394,6 +398,12 @@ def coq_eval(name, body, timeout=900):
 def coq_eval_many(named_bodies, timeout=900):
     with cf.ThreadPoolExecutor(max_workers=NCPU) as ex:
         return list(ex.map(lambda nb: coq_eval(nb[0], nb[1], timeout), named_bodies))
+
+
+def dhash(x):
+    """deterministic hash (Python's own hash of strings changes from process to process)"""
+    import zlib
+    return zlib.crc32(repr(x).encode())
 
 
 def shard(seq, n):
